@@ -1245,7 +1245,9 @@ def _guard_text(n):
     return " & ".join(out)
 
 
-def _callsite_guards(index, files, node):
+def _callsite_guards(index, files, node, depth=3):
+    """guard text of every call site of the function that contains `node`; a call site with no guard of its own inherits the guards of
+    the call sites of the function it sits in (a read moved into a helper of a guarded routine stays guarded)"""
     fn = node
     while fn is not None and not isinstance(fn, ast.FunctionDef):
         fn = getattr(fn, "_parent", None)
@@ -1255,7 +1257,13 @@ def _callsite_guards(index, files, node):
     for rel in files:
         for c in ast.walk(index.module(rel)):
             if isinstance(c, ast.Call) and isinstance(c.func, ast.Attribute) and c.func.attr == fn.name:
-                out.append(_guard_text(c))
+                g = _guard_text(c)
+                if depth > 0:
+                    outer = _callsite_guards(index, files, c, depth - 1)
+                    if outer:
+                        out += [(g + " && " + o) if g else o for o in outer]
+                        continue
+                out.append(g)
     return out
 
 
